@@ -71,15 +71,20 @@ def scaled_axes(tier):
     return out
 
 
+VEC_SCALES = (0.0, 1e-200, 1e-165, 1e-30, 1e30, 1e150, 1e160)
+
+
 def plan(tier, seed):
     exact, pert = axes(tier)
     scaled = scaled_axes(tier)
     shards = [('exact', exact[i::32]) for i in range(32)] + [('pert', pert[i::16]) for i in range(16)] + [('scaled', scaled[i::8]) for i in range(8)]
+    shards += [('vecscale', exact[i::4]) for i in range(4)] + [('objects', exact[i::4]) for i in range(4)]
     return dict(shards=shards, exhaustive=True,
                 rule=('all axes in {-2,-1,-.5,0,.5,1,2}^3 minus 0 (342) plus every zero component of those replaced by '
                       '+-1e-9 (thorough: also 1e-12, 1e-6); angles k*15 deg, +-109.5, +-pi, 2pi, -120, -90, 1e-9 '
                       '(thorough: also k*7.5 deg and negatives); vectors {-1,0,1.5}^3 minus 0 plus the axis itself and '
-                      'two vectors orthogonal to it. non-trivial = distinct triples whose rotation is not the identity '
+                      'two vectors orthogonal to it; the zero vector and vectors scaled by 1e-200 ... 1e160; sequences on one axis object (length taken, '
+                      'components re-assigned, rotated again). non-trivial = distinct triples whose rotation is not the identity '
                       '(angle not a multiple of 2pi and vector not parallel to the axis)'),
                 bounds=dict(axes_exact=len(exact), axes_perturbed=len(pert), angles=len(angles(tier))),
                 samples=[dict(axis=[0, 0, -1], angle_deg=90, vec=[1, 0, 0], expect=[0, -1, 0])])
@@ -145,6 +150,20 @@ def vectors(ax):
 def run_shard(shard, ctx):
     acc = Acc()
     kind, axs = shard
+    if kind == 'vecscale':
+        # the vector being rotated may be the zero vector, or very short or very long: the rotation is linear in it
+        for ax in axs[:: (4 if ctx.tier == 'quick' else 1)]:
+            for th in (math.radians(90.0), math.radians(-109.5), math.radians(33.0)):
+                for v in ((1.0, 0.0, 0.0), (-1.0, 0.5, 1.5)):
+                    for sc in VEC_SCALES:
+                        run_case(dict(kind='vecscale', axis=list(ax), angle=th, vec=list(v), scale=sc), ctx, acc)
+        return acc
+    if kind == 'objects':
+        for ax in axs[:: (4 if ctx.tier == 'quick' else 1)]:
+            for ax2 in ((0.0, 0.0, -1.0), (2.0, -1.0, 0.5), (0.0, 3.0, 0.0), (0.1, 0.1, 0.1), (5.0, 5.0, -7.0)):
+                for pre in ('length', 'rescale', 'rotate', 'none'):
+                    run_case(dict(kind='objects', axis=list(ax), axis2=list(ax2), pre=pre, angle=math.radians(75.0), vec=[1.0, -2.0, 0.5]), ctx, acc)
+        return acc
     tol = 1e-6 if kind == 'pert' else 1e-9
     angs = angles(ctx.tier)
     for ax in axs:
@@ -164,6 +183,49 @@ def run_shard(shard, ctx):
 
 
 def run_case(case, ctx, acc):
+    if case.get('kind') == 'vecscale':
+        acc.n += 1
+        acc.nontrivial_n += 1
+        sc = case['scale']
+        v = tuple(c * sc for c in case['vec'])
+        ax = tuple(case['axis'])
+        try:
+            got = rotate_vector_around_an_axis(case['angle'], Vector(*ax), Vector(*v))
+            g = [got.x, got.y, got.z]
+        except Exception as exc:   # noqa: BLE001
+            acc.viols.append(Viol(case, 'rodrigues', 'rotation-raises/%s/vector-scale=%g' % (type(exc).__name__, sc), '%s: %s' % (type(exc).__name__, exc)))
+            return
+        exp = rodrigues(case['angle'], ax, v)
+        lv = math.sqrt(sum((c / sc) ** 2 for c in v)) * sc if sc else 0.0
+        if any(x != x for x in g) or max(abs(a - b) for a, b in zip(g, exp)) > 1e-9 * lv:
+            acc.viols.append(Viol(case, 'rodrigues', 'wrong-rotation/vector-scale=%g' % sc, 'got %r expected %r' % (g, exp)))
+        acc.outcomes['vecscale-ok'] += 1
+        return
+    if case.get('kind') == 'objects':
+        # one Vector object serves as axis twice, its components re-assigned in between (after its length was taken)
+        acc.n += 1
+        acc.nontrivial_n += 1
+        axv = Vector(*case['axis'])
+        vec = tuple(case['vec'])
+        if case['pre'] == 'length':
+            axv.length()
+        elif case['pre'] == 'rescale':
+            axv.rescale(1.0)
+        elif case['pre'] == 'rotate':
+            rotate_vector_around_an_axis(case['angle'], axv, Vector(*vec))
+        axv.x, axv.y, axv.z = case['axis2']
+        try:
+            got = rotate_vector_around_an_axis(case['angle'], axv, Vector(*vec))
+            g = [got.x, got.y, got.z]
+        except Exception as exc:   # noqa: BLE001
+            acc.viols.append(Viol(case, 'rodrigues', 'rotation-raises/%s/axis-object-reused' % type(exc).__name__, '%s: %s' % (type(exc).__name__, exc)))
+            return
+        exp = rodrigues(case['angle'], tuple(case['axis2']), vec)
+        lv = math.sqrt(sum(c * c for c in vec))
+        if max(abs(a - b) for a, b in zip(g, exp)) > 1e-9 * lv:
+            acc.viols.append(Viol(case, 'rodrigues', 'wrong-rotation/axis-object-reused/after-%s' % case['pre'], 'got %r expected %r' % (g, exp)))
+        acc.outcomes['objects-ok'] += 1
+        return
     acc.n += 1
     r = one(tuple(case['axis']), case['angle'], tuple(case['vec']), case.get('tol', 1e-9))
     if r is not None:
